@@ -204,3 +204,76 @@ func suffix(o Opts) string {
 	}
 	return s
 }
+
+// AsyncAlloc: a kernel is in flight while the application allocates more
+// memory in the same context (the driver walks Context.buffers on the engine
+// thread).
+func AsyncAlloc(o Opts) Scenario {
+	return Scenario{Name: "1thread-kernel-in-flight-allocate" + suffix(o), Opts: o, Threads: 1, Main: func(rt RT, o Opts) {
+		w := NewWorld(rt, o)
+		d := w.Driver
+		ctx := d.Init()
+		buf := d.AllocateMemory(ctx, 4)
+		q := d.CreateCommandQueue(ctx)
+		out := make([]byte, 4)
+		h2d(w, q, "c0", buf, []byte{1, 2, 3, 4})
+		d.EnqueueLaunchKernel(q, AddKernel, [3]uint32{4, 1, 1}, [3]uint16{4, 1, 1}, &KernelArgs{Buf: buf, N: 4, Add: 5})
+		d2h(w, q, "c9", out, buf)
+		q2 := d.CreateCommandQueue(ctx)
+		h2d(w, q2, "k0", buf, []byte{1, 2, 3, 4})
+		w.Drain("main", q2, "k0") // starts the engine; q is still being processed
+		for i := 0; i < 3; i++ {
+			d.AllocateMemory(ctx, 4)
+		}
+		w.Drain("main", q, "c0", "c9")
+		outcome(w, []*driver.Context{ctx}, []driver.Ptr{buf}, 4, "")
+	}}
+}
+
+// RaceScenarios are the bodies run free under the race detector.
+func RaceScenarios(o Opts) []Scenario {
+	om := o
+	om.Magic = true
+	return []Scenario{
+		Commands1Q(3, o), BackToBack(3, o), TwoQueues(o), TwoThreads(false, o), TwoThreads(true, o), Kernel1Q(o), AsyncAlloc(o), Commands1Q(3, om),
+	}
+}
+
+// Repro is the C05 body: one application thread issues `calls` blocking API
+// calls (2..4: MemCopyH2D, [MemCopyH2D,] MemCopyD2H, [LaunchKernel+MemCopyD2H]);
+// the observables are taken when the calls have returned and the engine has
+// gone idle.
+func Repro(calls int, o Opts) Scenario {
+	return Scenario{Name: fmt.Sprintf("1thread-%dblocking-calls%s", calls, suffix(o)), Opts: o, Threads: 1, Main: func(rt RT, o Opts) {
+		w := NewWorld(rt, o)
+		d := w.Driver
+		ctx := d.Init()
+		buf := d.AllocateMemory(ctx, 4)
+		out := make([]byte, 4)
+		a := []byte{9, 8, 7, 6}
+		b := []byte{1, 3, 5, 7}
+		want := a
+		d.MemCopyH2D(ctx, buf, a)
+		tAfterFirst := w.Engine.CurrentTime()
+		if calls >= 3 {
+			d.MemCopyH2D(ctx, buf, b)
+			want = b
+		}
+		if calls >= 4 {
+			d.LaunchKernel(ctx, AddKernel, [3]uint32{4, 1, 1}, [3]uint16{4, 1, 1}, &KernelArgs{Buf: buf, N: 4, Add: 5})
+			want = []byte{6, 8, 10, 12}
+		}
+		d.MemCopyD2H(ctx, out, buf)
+		expect(w, "MemCopyD2H-result", out, want)
+		tReturn := w.Engine.CurrentTime()
+		rt.Quiesce()
+		tEnd := w.Engine.CurrentTime()
+		ns := func(t float64) int64 { return int64(t*1e9 + 0.5) }
+		var mem []byte
+		if Instrumented {
+			mem = w.DeviceBytes(ctxPID(ctx), buf, 4)
+		}
+		rt.Outcome(fmt.Sprintf("bytes: dev=%v host=%v; durations: %s; times: %s; now-when-first-call-returned=%d now-when-last-call-returned=%d; T_end(engine idle)=%d",
+			mem, out, w.Durations(), w.Times(), ns(float64(tAfterFirst)), ns(float64(tReturn)), ns(float64(tEnd))))
+	}}
+}
